@@ -744,6 +744,33 @@ def stored_factor_convention(A, qual):
     return conv
 
 
+COMPLEX_LOG_PDFS = {
+    D + 'complex_watson::ComplexWatson.log_pdf': ('y',), D + 'complex_bingham::ComplexBingham.log_pdf': ('y',),
+    D + 'complex_angular_central_gaussian::ComplexAngularCentralGaussian._log_pdf': ('y',), D + 'complex_angular_central_gaussian::ComplexAngularCentralGaussian.log_pdf': ('y',),
+    D + 'complex_circular_symmetric_gaussian::ComplexCircularSymmetricGaussian.log_pdf': ('y',),
+}
+
+
+def check_real_log_density(run, A):
+    """the logarithm of a density is a REAL number.  A Hermitian form y^H B y of complex observations is real in exact arithmetic but complex-TYPED in NumPy; returned as it
+    is, the posterior (exp, normalise) and everything computed from it become complex arrays with rounding-level imaginary parts: comparisons with 0 and 1, arg-max and
+    log-likelihood sums no longer mean what the property says."""
+    from ..walk import decided_complex, ret_alts
+    n = 0
+    for q, cp in COMPLEX_LOG_PDFS.items():
+        fn = A.prog.func(q)
+        g = A.graphs.get(fn)
+        for r in ret_alts(g):
+            r0 = strip_views(r)
+            vals = list(r0.args[0]) if r0.op == 'tuple' else [r0]
+            for i, v in enumerate(vals):
+                n += 1
+                run.check(not decided_complex(v, set(cp)), 'R-REAL', f'{q.split("::")[1]}: result {i} is real valued', fn.loc(getattr(v, 'node', None)), '',
+                          'the returned value is computed from the complex observation by arithmetic / contractions only (no .real, abs or |.|^2 on the way): it is a complex-typed array',
+                          construct=f'R-REAL::{q}::result-{i}')
+    run.floor('log-density results examined for being real valued', n, 6)
+
+
 def check(run):
     A = run.A
     run.explanation = (
@@ -760,6 +787,7 @@ def check(run):
     check_bingham(ck)
     check_cacg(ck)
     close_terms(ck)
+    check_real_log_density(run, A)
     # generic sesquilinear rule on every einsum of the density files
     n = 0
     for s in ein.enumerate_sites(A):
